@@ -6,10 +6,10 @@
    C12_on_state_time_none).  On real timing data: C12_roundtrip_interior, beat -> time -> beat is the identity
    for every tick-aligned beat strictly between event beats and outside the union of the warps.
    Left to the correspondence on the dyadic family (exact floats), with the oracle stating them directly:
-   the round trip on event beats, the warp-elapse clause as a statement about timing data, global
-   monotonicity in time (the half-tick bound is C12_half_tick, in beats). *)
+   the round trip on event beats, warp segments with a stop or delay inside or starting on beat 0, global
+   monotonicity in time (C12_warp_elapse is the warp clause for the other segments; C12_half_tick the bound in beats). *)
 From Coq Require Import List ZArith QArith Qabs Bool Sorting.Sorted.
-From SV Require Import Sx Beat Engine Proofs.EngineFacts Proofs.Hittable Proofs.TimeLaw Proofs.BeatAt.
+From SV Require Import Sx Beat Engine Proofs.EngineFacts Proofs.Hittable Proofs.TimeLaw Proofs.BeatAt Proofs.WarpElapse.
 Import ListNotations.
 Open Scope Q_scope.
 
@@ -91,6 +91,19 @@ Theorem C12_monotone_local : forall pre s post d t1 t2 q,
 Proof. exact beat_at_monotone_local. Qed.
 Print Assumptions C12_monotone_local.
 
+(* at the time at which a whole warp segment elapses - [segs] are the coalesced segments, whose union is the union of
+   the raw warps - the WARP tag gives the beat where that stretch starts and the default gives the beat where it
+   ends, for every segment that starts after beat 0 and has no stop or delay on its beats *)
+Theorem C12_warp_elapse : forall td b0 v0 rest, dom td -> td_bpms td = (b0, v0) :: rest -> b0 == 0 ->
+  exists segs : list (Q * Q),
+    (forall x, in_raw (td_warps td) x <-> exists s e, In (s, e) segs /\ s <= x /\ x < e) /\
+    forall s e d, In (s, e) segs -> 0 < s ->
+      (forall r, In r (td_stops td) \/ In r (td_delays td) -> ~ (s <= fst r /\ fst r <= e)) ->
+      let T := time_at (sts td v0) (init_state td v0) e tBPM in
+      fst (beat_at_raw (sts td v0) d T tWARP) == s /\ fst (beat_at_raw (sts td v0) d T tSTOP) == e.
+Proof. exact warp_elapse_td. Qed.
+Print Assumptions C12_warp_elapse.
+
 (* rounding to the tick does not depend on how the rational is written, and fixes every tick *)
 Theorem C12_round_well_defined : forall a b, a == b -> tick_round a == tick_round b.
 Proof. exact tick_round_compat. Qed.
@@ -120,4 +133,11 @@ Example C12_example :
   Qeq_bool (beat_at_of (td0 [(1, 120); (2, 120); (3, 120)]) 5 tSTOP) 12 &&
   Qeq_bool (beat_at_of (td0 []) 4 tWARP) 8 && Qeq_bool (beat_at_of (td0 []) 4 tSTOP) 10 &&
   Qeq_bool (beat_at_of (td0 []) (9 # 2) tSTOP) 10 = true.
+Proof. vm_compute. reflexivity. Qed.
+
+(* non-vacuity of the warp clause: two overlapping warps 8=3, 10=2 coalesce into [8, 12); at the time beat 12 is reached
+   the WARP tag answers 8 and the default 12 *)
+Definition td_w : tdata := {| td_bpms := [(0, 120)]; td_stops := []; td_delays := []; td_warps := [(8, 3); (10, 2)]; td_offset := 0 |}.
+Example C12_warp_example :
+  Qeq_bool (beat_at_of td_w 4 tWARP) 8 && Qeq_bool (beat_at_of td_w 4 tSTOP) 12 = true.
 Proof. vm_compute. reflexivity. Qed.
